@@ -9,6 +9,8 @@
 import Scc.PMoves.Proofs
 import Scc.PMoves.Backends
 
+set_option autoImplicit false
+
 namespace Scc.PMoves
 
 /-! ## which abstract instructions the generic part emits for a root -/
@@ -138,7 +140,7 @@ theorem backend_correct (csE : Root → Bool)
       Sim rd ok cell f (step op a) (runWith exec (lower op) m))
     (hcomment : ∀ msg m, runWith exec (lower (.comment msg)) m = m)
     (pm : PMap) (hk : KeysNodup pm) (ht : TargetsNodup pm) (hf : Functional pm)
-    (hok : ∀ x ∈ allNodes pm, ok x) :
+    (hok' : ∀ s t, Edge pm s t → ok s ∧ ok t) :
     ∃ ops, parallelMoves pm csE = .ok ops ∧ ∀ m : S,
       (∀ s t, Edge pm s t → rd (runWith exec (ops.flatMap lower) m) t = rd m s) ∧
       (∀ x, ok x → (∀ s, ¬ Edge pm s x) → rd (runWith exec (ops.flatMap lower) m) x = rd m x) := by
@@ -147,11 +149,6 @@ theorem backend_correct (csE : Root → Bool)
     (fun _ h => h)
   refine ⟨forestCode csE roots, by simp [parallelMoves, parallelMovesFuel, spanningForest, hroots], ?_⟩
   intro m
-  have hok' : ∀ s t, Edge pm s t → ok s ∧ ok t := by
-    intro s t e
-    refine ⟨hok s (mem_allNodes.mpr (Or.inl ?_)), hok t (mem_allNodes.mpr (Or.inr (edge_mem_allTargets e)))⟩
-    obtain ⟨ts, hm, _⟩ := e
-    exact List.mem_map.mpr ⟨(s, ts), hm, rfl⟩
   obtain ⟨cur', inv⟩ := forest_loop rd ok
     (fun r s => runWith exec ((rootMoves csE r).flatMap lower) s) pm hk hf hok' (fuelFor pm) m
     (fun cur k trees st good hroot =>
@@ -170,5 +167,13 @@ theorem backend_correct (csE : Root → Bool)
   exact inv.final
 
 end generic
+
+/-- "all temporaries of the map are observable" implies the edge-wise form used above -/
+theorem edge_ok_of_allNodes {ok : Nat → Prop} {pm : PMap} (hok : ∀ x ∈ allNodes pm, ok x) :
+    ∀ s t, Edge pm s t → ok s ∧ ok t := by
+  intro s t e
+  refine ⟨hok s (mem_allNodes.mpr (Or.inl ?_)), hok t (mem_allNodes.mpr (Or.inr (edge_mem_allTargets e)))⟩
+  obtain ⟨ts, hm, _⟩ := e
+  exact List.mem_map.mpr ⟨(s, ts), hm, rfl⟩
 
 end Scc.PMoves
